@@ -183,6 +183,9 @@ func (sc *scenario) step(allowNew bool) bool {
 	sc.noteOps()
 	if len(sc.actorsIn("gate")) == 0 && len(sc.actorsIn("send")) == 0 && len(w.DueTimers()) == 0 && rng.Intn(3) == 0 {
 		w.Quiescent(sc.parked())
+		if rng.Intn(3) == 0 {
+			w.Listing()
+		}
 	}
 	type move struct {
 		weight int
@@ -472,6 +475,9 @@ func TestFairness(t *testing.T) {
 				for _, tm := range w.DueTimers() {
 					w.Fire(tm)
 					sc.settle()
+				}
+				if step%4 == 0 {
+					w.Listing()
 				}
 			}
 			sc.drain()
